@@ -46,7 +46,9 @@ func Digraph(X []int, R []Relation,
 }
 
 func Union(a []int, b []int) []int {
-	c := b
+	// copy b: callers keep several sets that share one backing array
+	c := make([]int, len(b), len(a)+len(b))
+	copy(c, b)
 	for _, v := range a {
 		found := false
 		for _, u := range b {
